@@ -30,7 +30,10 @@ ASSUMPTIONS = [
 
 DTYPES = ("float16", "float32", "float64", "bfloat16", "int8", "int32", "int64", "bool", "complex64")
 SHAPES = ((), (0,), (1,), (3,), (2, 3), (0, 4), (2, 1, 2))
-TAGS = ("t", "123", "0", "it's", 'say "hi"', "é", "€", "\U0001d11e", "a\\nb", "back\\\\slash", "x" * 300, "")
+TAGS = ("t", "123", "0", "it's", 'say "hi"', "é", "€", "\U0001d11e", "a\\nb", "back\\\\slash", "x" * 300, "",
+        # payload lengths around the 255/256 boundary in characters and in UTF-8 bytes
+        "é" * 100, "é" * 110, "é" * 150, "é" * 215, "é" * 216, "é" * 217, "€" * 72, "€" * 75,
+        "€" * 200, "\U0001d11e" * 54, "\U0001d11e" * 60, "x" * 215, "x" * 216, "x" * 217, "x" * 65500)
 
 
 def build(spec, torch):
@@ -152,12 +155,17 @@ def check(spec, tag, overwrite, scratch):
         members0 = {n: z.read(n) for n in names0}
     sha0 = sha(src)
     pkl_name = next(n for n in names0 if n.endswith("/data.pkl"))
-    want_p = Pickled.load(members0[pkl_name])
-    want_p.insert_python_exec(payload)
-    want_pkl = want_p.dumps()
 
     def fail(msg):
         return Failure(case, f"insertion into torch.save({_brief(spec)}) overwrite={overwrite}: {msg}")
+
+    try:
+        want_p = Pickled.load(members0[pkl_name])
+        want_p.insert_python_exec(payload)
+        want_pkl = want_p.dumps()
+    except Exception as e:  # noqa: BLE001
+        return fail(f"the payload {payload[:60]!r}... cannot be inserted into data.pkl at all: "
+                    f"{type(e).__name__}: {e}")
 
     before = set(os.listdir(scratch.path))
     import contextlib
